@@ -520,6 +520,7 @@ pub fn check_cmd(args: CheckArgs) -> i32 {
     // 2. census
     let hooks = hooks_compiled();
     let mut planner = Planner::new(seed, &prop, tier, hooks);
+    planner.pre_pool = corpus.k0.iter().map(|e| e.text.clone()).collect();
     let mut census_entries: Vec<&Entry> = corpus.g.iter().collect();
     census_entries.extend(corpus.k0.iter());
     census_entries.extend(corpus.finite.iter());
